@@ -19,7 +19,7 @@ RULE = (
     "element (optionally with SVG-looking children) or attribute, id-less symbol with content, attribute-less wrapper "
     "<g> around 1-3 consecutive siblings (inside svg/g only), empty <g/>, inter-element whitespace, XML declaration, id-less symbol whose content carries ids, comment / processing instruction before or after the document element - "
     "at random legal tree positions incl. inside defs, clipPaths, gradients and groups. Oracle (metamorphic): "
-    "convert(N(D)) must equal convert(D) after canonicalising generated gradient ids (renumbered by first reference), "
+    "both documents are loaded through the same public entry point (SVG.fromstring on str/bytes, SVG.parse on a path, a text file object, a binary file object, a BytesIO) and converted with the same ndigits (0..6); convert(N(D)) must equal convert(D) after canonicalising generated gradient ids (renumbered by first reference), "
     "sorting gradients in defs and comparing gradient numeric attributes with tolerance 1e-5 + 2e-6*S, S = largest gradient number of the document (double rounding of the 6-decimal gradient parameters, scaled by bounding box and ancestor transforms); if one side raises the other must "
     "raise too. Non-trivial = some noise landed inside a group/defs/clipPath/gradient (not only at root level) and "
     "convert(D) has >= 2 paths; distinct = distinct (D, N(D))."
@@ -94,9 +94,33 @@ def _same_up_to_last_digit(a: str, b: str) -> bool:
     return len(na) == len(nb) and all(abs(x - y) <= 1e-5 + 2e-6 * scale for x, y in zip(na, nb))
 
 
-def _conv(s):
+def _load(s, entry):
+    """The public ways of getting a document into an SVG object."""
+    import io
+    import os
+    import tempfile
+
+    if entry == "fromstring":
+        return SVG.fromstring(s)
+    if entry == "fromstring-bytes":
+        return SVG.fromstring(s.encode("utf-8"))
+    if entry == "parse-bytesio":
+        return SVG.parse(io.BytesIO(s.encode("utf-8")))
+    fd, path = tempfile.mkstemp(suffix=".svg")
     try:
-        return SVG.fromstring(s).topicosvg().tostring(), None
+        with os.fdopen(fd, "w", encoding="utf-8") as f:
+            f.write(s)
+        if entry == "parse-path":
+            return SVG.parse(path)
+        with open(path, "rb" if entry == "parse-file-rb" else "r", **({} if entry == "parse-file-rb" else {"encoding": "utf-8"})) as f:
+            return SVG.parse(f)
+    finally:
+        os.unlink(path)
+
+
+def _conv(s, nd=3, entry="fromstring"):
+    try:
+        return _load(s, entry).topicosvg(ndigits=nd).tostring(), None
     except Exception as e:
         return None, type(e).__name__
 
@@ -105,8 +129,10 @@ def check_pair(case) -> Result:
     r = Result()
     labels = case.get("noise", [])
     r.classes = tuple(sorted({l.split("@")[0] for l in labels})) + tuple(sorted({"in:" + l.split("@")[1] for l in labels if "@" in l}))
-    o1, e1 = _conv(case["base"])
-    o2, e2 = _conv(case["noisy"])
+    nd, entry = case.get("ndigits", 3), case.get("entry", "fromstring")
+    r.classes += (f"ndigits={nd}", "entry:" + entry)
+    o1, e1 = _conv(case["base"], nd, entry)
+    o2, e2 = _conv(case["noisy"], nd, entry)
     if e1 or e2:
         if bool(e1) != bool(e2):
             r.bad("raises-differently", f"without noise: {e1 or 'converts'}; with noise {labels}: {e2 or 'converts'}; noisy={case['noisy'][:500]}")
@@ -132,13 +158,40 @@ def check_pair(case) -> Result:
 @st.composite
 def c14_case(draw):
     root, feat = draw(families.any_document_ast())
+    marked = None
+    if draw(st.integers(0, 3)) == 0:
+        # a shape whose opacity has more decimals than the default rounding keeps (matters for ndigits > 3) ...
+        leaves = [n for n in noise._elements(root) if n["tag"] in docs._SHAPE_TAGS]
+        if leaves:
+            marked = draw(st.sampled_from(["0.37255", "0.654321", "0.12345"]))
+            lf = leaves[draw(st.integers(0, len(leaves) - 1))]
+            lf["s"].pop("opacity", None)
+            lf["a"]["opacity"] = marked
     base = docs.serialize(root, root=True)
     noisy_root = copy.deepcopy(root)
     labels, prolog, foreign = noise.insert_noise(draw, noisy_root, 1, 6)
+    if marked and draw(st.booleans()):
+        # ... and an attribute-less wrapper group right around it
+        def wrap(n):
+            for i, c in enumerate(n["c"]):
+                if c["a"].get("opacity") == marked and c["tag"] in docs._SHAPE_TAGS and n["tag"] in ("svg", "g"):
+                    n["c"][i] = docs.node("g", c=[c])
+                    labels.append("wrapper-g@" + n["tag"])
+                    return True
+                if not c["tag"].startswith("#") and wrap(c):
+                    return True
+            return False
+
+        wrap(noisy_root)
     noisy = docs.serialize(noisy_root, root=True, extra_ns=noise.FOREIGN_NS if foreign else "", prolog=prolog)
-    return {"base": base, "noisy": noisy, "noise": labels, "feat": feat}
+    case = {"base": base, "noisy": noisy, "noise": labels, "feat": feat}
+    case["ndigits"] = draw(st.sampled_from([3, 3, 3, 5, 6, 1, 0] + ([5, 6, 4] if marked else [])))
+    # the XML declaration is only legal for str input without an encoding pseudo-attribute / for bytes input
+    entries = ["fromstring", "fromstring", "parse-path", "parse-file", "parse-file-rb", "parse-bytesio"]
+    case["entry"] = draw(st.sampled_from(entries)) if "encoding" not in prolog else draw(st.sampled_from(["fromstring-bytes", "parse-path", "parse-file-rb", "parse-bytesio"]))
+    return case
 
 
 SUBCHECKS = {
-    "pair": Sub("pair", check_pair, strategy=lambda ctx: c14_case(), examples={"quick": 450, "thorough": 5000}, describe=lambda c: {"noisy": c["noisy"], "noise": c["noise"]}),
+    "pair": Sub("pair", check_pair, strategy=lambda ctx: c14_case(), examples={"quick": 450, "thorough": 5000}, describe=lambda c: {"noisy": c["noisy"], "noise": c["noise"], "ndigits": c.get("ndigits", 3), "entry": c.get("entry", "fromstring")}),
 }
